@@ -50,6 +50,28 @@ def impl(c):
     if o["out"][0] == "ok":
         o["reload"] = G.guarded(lambda: G.sf_obs(cls(string=o["out"][1], strict=True)))
         o["out2"] = G.guarded(lambda: str(cls(string=o["out"][1], strict=True)))
+        # the same output saved to a file and loaded back by name: the loader picks the encoding itself; an earlier open() that named
+        # an encoding explicitly is part of the history
+        if "\r" not in o["out"][1]:
+            import os, tempfile, simfile
+            try:
+                raw = o["out"][1].encode("utf-8")
+            except UnicodeEncodeError:
+                raw = None
+            if raw is not None:
+                d = tempfile.mkdtemp(prefix="verif_c04_")
+                p = os.path.join(d, "saved." + ("ssc" if c["ssc"] else "sm"))
+                try:
+                    with open(p, "wb") as f:
+                        f.write(raw)
+                    o["reload_file"] = G.guarded(lambda: G.sf_obs(simfile.open(p, strict=True)))
+                    try:
+                        simfile.open(p, encoding="cp1252", strict=False)
+                    except Exception:
+                        pass
+                finally:
+                    import shutil
+                    shutil.rmtree(d, ignore_errors=True)
     return o
 
 
@@ -75,6 +97,11 @@ def model(c, ans):
     o["reload"] = ["ok", d(a[3])]
     o["out2"] = ["ok", S(a[4][0])] if a[4] else ["err", "key"]
     return o
+
+
+def agree(io, mo):
+    # the reload through a file is the oracle's business only (the model has no file system here)
+    return {k: v for k, v in io.items() if k != "reload_file"} == mo if isinstance(io, dict) and isinstance(mo, dict) else io == mo
 
 
 def oracle(c, o):
@@ -109,6 +136,8 @@ def oracle(c, o):
         return "load-save-load changed the simfile: %s... -> %s..." % (str(want)[:300], str(o["reload"])[:300])
     if o["out2"] != o["out"]:
         return "a second save is not byte-for-byte the first"
+    if "reload_file" in o and o["reload_file"] != o["reload"]:
+        return "the saved text written to a file (utf-8) and opened by name loads as %s..., from the string it loads as %s..." % (str(o["reload_file"])[:250], str(o["reload"])[:250])
     return None
 
 
